@@ -366,6 +366,7 @@ func instEcalli(interp *Interpreter, pc ProgramCounter, skipLength ProgramCounte
 		return ExitPanic, pc
 	}
 
+	interp.HostCallIndex = nuX
 	return hostCallExit(nuX), pc
 }
 
